@@ -25,6 +25,7 @@ type BurstParams struct {
 	Membership string `json:"membership"` // dynamic | static
 	MaxN       int    `json:"max_n"`
 	Hold       bool   `json:"hold"` // adversarially delay the membership subscriber of the bus
+	Tight      bool   `json:"tight"` // only gap 0, sources bus then api-rebalance
 }
 
 type notif struct {
@@ -55,6 +56,7 @@ func init() {
 				{Scenario: "c11_burst", Params: mustJSON(BurstParams{Membership: "dynamic", MaxN: n}), Bound: b, Shards: 8},
 				{Scenario: "c11_burst", Params: mustJSON(BurstParams{Membership: "static", MaxN: n}), Bound: b, Shards: 8},
 				{Scenario: "c11_burst", Params: mustJSON(BurstParams{Membership: "dynamic", MaxN: 1, Hold: true}), Bound: b, Shards: 2},
+				{Scenario: "c11_burst", Params: mustJSON(BurstParams{Membership: "static", MaxN: 2, Tight: true}), Bound: 1, Shards: 8, Note: "two notifications at the same instant (bus + GET /rebalance), all single deviations"},
 			}
 		},
 	})
@@ -132,7 +134,9 @@ func burstMain(p BurstParams) {
 	}
 	// the burst
 	n := 1
-	if p.MaxN > 1 {
+	if p.Tight {
+		n = 2
+	} else if p.MaxN > 1 {
 		n = 1 + vrt.Choose(p.MaxN, true, "burst-size")
 	}
 	vals := [][2]int{{1, 1}, {1, 2}, {2, 2}}
@@ -148,10 +152,15 @@ func burstMain(p BurstParams) {
 	vrt.Window(true)
 	apiInfo := [2]int{0, 0}
 	for i := 0; i < n; i++ {
-		nt := &notif{src: srcs[vrt.Choose(len(srcs), true, "source")], val: vals[vrt.Choose(len(vals), true, "value")]}
-		if i > 0 {
-			nt.gap = gaps[vrt.Choose(len(gaps), true, "gap")]
-			vrt.Sleep(nt.gap)
+		var nt *notif
+		if p.Tight {
+			nt = &notif{src: []string{"bus", "api-rebalance"}[i], val: [2]int{1, 1}}
+		} else {
+			nt = &notif{src: srcs[vrt.Choose(len(srcs), true, "source")], val: vals[vrt.Choose(len(vals), true, "value")]}
+			if i > 0 {
+				nt.gap = gaps[vrt.Choose(len(gaps), true, "gap")]
+				vrt.Sleep(nt.gap)
+			}
 		}
 		// events keep arriving on the server while all this happens
 		for vb := uint16(0); vb < 4; vb++ {
@@ -195,14 +204,21 @@ func burstMain(p BurstParams) {
 	}
 	d := fmt.Sprintf("%s %v", p.Membership, desc)
 	// --- oracle ---
-	if e.Done {
-		vrt.Failf("%s: Start() returned - a rebalance terminated the client", d)
-	}
 	var names []string
 	for _, h := range hlog[readyIdx:] {
 		names = append(names, h.name)
 	}
 	seq := strings.Join(names, " ")
+	if e.Done {
+		why := ""
+		if strings.HasSuffix(seq, "ARE BSS ASS") {
+			// the server never ended a stream in this scenario; the stop signal was raised right after a re-open
+			why = " [the client stopped right after a completed re-open although no vBucket stream had ended: a stream-finish token left over from the rebalance's own Close() was consumed by the wait() of the new session]"
+		}
+		vrt.Failf("%s: Start() returned - a rebalance terminated the client (%s)%s", d, seq, why)
+		vrt.SetOutcome(fmt.Sprintf("%s|%s|terminated", d, seq))
+		return
+	}
 	// bracket grammar: (BRS BSS ASS ARS BRE BSStart ASStart ARE)* ; a notification that is absorbed by the
 	// debounce produces no callbacks
 	cycle := "BRS BSS ASS ARS BRE BSStart ASStart ARE"
